@@ -4536,4 +4536,42 @@ theorem iget_mcol (g v n i : ℤ) : (0 ≤ i ∧ i < n) → iget (mcol mvar g v 
 
 end Mapping
 
+
+/-! # Twenty-first batch: the enumeration `combs(apseq(s, n), k)` lists pairwise distinct subsets -/
+
+theorem combs_nodup (S : ISeq) (k : ℤ) (h : S.Nodup) : (combs S k).Nodup := by
+  unfold combs
+  rw [combsLex_eq_reverse, List.nodup_reverse]
+  exact List.nodup_sublistsLen _ h
+
+theorem cget_eq_getElem (C : CSeq) (i : ℤ) (h0 : 0 ≤ i) (h1 : i < clen C) :
+    cget C i = C[i.toNat]'(by unfold clen at h1; omega) := by
+  unfold clen at h1
+  have hlt : i.toNat < C.length := by omega
+  unfold cget
+  rw [List.getD_eq_getElem?_getD, List.getElem?_eq_getElem hlt]; rfl
+
+/-- (d) `And(0 <= i, i < j, j < clen(combs(apseq(s, n), k))) ->
+    cget(combs(apseq(s, n), k), i) != cget(combs(apseq(s, n), k), j)` (no guard on `s`, `n`, `k`) -/
+theorem combs_apseq_distinct (s n k i j : ℤ) :
+    (0 ≤ i ∧ i < j ∧ j < clen (combs (apseq s n) k)) →
+    cget (combs (apseq s n) k) i ≠ cget (combs (apseq s n) k) j := by
+  rintro ⟨h0, hij, hj⟩
+  have hnd : (combs (apseq s n) k).Nodup :=
+    combs_nodup _ k ((apseq_pairwise_lt s n).imp (fun h => by omega))
+  rw [cget_eq_getElem _ i h0 (by omega), cget_eq_getElem _ j (by omega) hj]
+  intro heq
+  have := (List.Nodup.getElem_inj_iff hnd).mp heq
+  omega
+
+/-- (m) `And(k >= 0, 0 <= i, i < clen(combs(S, k))) -> ilen(cget(combs(S, k), i)) == k`
+    (any list `S`; `k >= 0` is needed: for `k < 0` the model has the single element `[]`) -/
+theorem combs_elem_len (S : ISeq) (k i : ℤ) :
+    (k ≥ 0 ∧ 0 ≤ i ∧ i < clen (combs S k)) → ilen (cget (combs S k) i) = k := by
+  rintro ⟨hk, h0, h1⟩
+  have hm : cget (combs S k) i ∈ combsLex k.toNat S := cget_mem (combs S k) i ⟨h0, h1⟩
+  rw [mem_combsLex] at hm
+  unfold ilen
+  omega
+
 end CnfSem
